@@ -119,6 +119,78 @@ func runC17(a *A) {
 	a.Rule("shape/trigger-binding", 2, func() {
 		fn := a.Method("window", "GlobalWindow", "shouldFire")
 		n := 0
+		// resultOfOwnAggregate: is v the Result() of an aggregator looked up with the spec's own alias in
+		// outputAggs or with the spec's own placeholder in triggerAggs (nil allowed)? One level of module
+		// helper taking the spec is followed.
+		var own func(v ssa.Value, depth int) (bool, string)
+		own = func(v ssa.Value, depth int) (bool, string) {
+			kinds := map[string]bool{}
+			for _, l := range phiLeaves(v) {
+				if k, ok := l.(*ssa.Const); ok && k.Value == nil {
+					continue
+				}
+				c, ok := l.(*ssa.Call)
+				if !ok {
+					return false, ""
+				}
+				if c.Call.IsInvoke() && c.Call.Method.Name() == "Result" {
+					ok1 := false
+					for _, agg := range phiLeaves(c.Call.Value) {
+						var lk *ssa.Lookup
+						switch x := agg.(type) {
+						case *ssa.Lookup:
+							lk = x
+						case *ssa.Extract:
+							lk, _ = x.Tuple.(*ssa.Lookup)
+						}
+						if lk == nil {
+							return false, ""
+						}
+						mt := TermOf(lk.X, nil).String()
+						switch {
+						case strings.Contains(mt, "outputAggs") && isFieldOf(TermOf(lk.Index, nil), "window.triggerSpec", "outputAlias"):
+							kinds["output alias"] = true
+							ok1 = true
+						case strings.Contains(mt, "triggerAggs") && isFieldOf(TermOf(lk.Index, nil), "window.triggerSpec", "placeholder"):
+							kinds["own trigger aggregate"] = true
+							ok1 = true
+						default:
+							return false, ""
+						}
+					}
+					if !ok1 {
+						return false, ""
+					}
+					continue
+				}
+				if callee := c.Call.StaticCallee(); callee != nil && a.fnInModule(callee) && depth < 1 {
+					all := true
+					a.calleeReturns(c, 0, func(rv ssa.Value, _ *ssa.Function) {
+						ok2, k := own(rv, depth+1)
+						if !ok2 {
+							all = false
+						}
+						for _, kk := range strings.Split(k, "+") {
+							if kk != "" {
+								kinds[kk] = true
+							}
+						}
+					}, func(string) { all = false })
+					if !all {
+						return false, ""
+					}
+					continue
+				}
+				return false, ""
+			}
+			var ks []string
+			for k := range kinds {
+				ks = append(ks, k)
+			}
+			sort.Strings(ks)
+			return true, strings.Join(ks, "+")
+		}
+		seenKinds := map[string]bool{}
 		allInstrs(fn, func(in ssa.Instruction) {
 			mu, ok := in.(*ssa.MapUpdate)
 			if !ok {
@@ -126,24 +198,44 @@ func runC17(a *A) {
 			}
 			n++
 			kt := TermOf(mu.Key, nil)
-			vt := TermOf(mu.Value, nil).String()
 			okKey := isFieldOf(kt, "window.triggerSpec", "placeholder")
-			okVal := false
-			which := ""
-			if strings.Contains(vt, "outputAggs[]") {
-				// looked up by ts.outputAlias, and guarded by outputAlias != ""
-				which = "output alias"
-				okVal = lookupIndexedBy(mu.Value, "window.triggerSpec", "outputAlias")
-			} else if strings.Contains(vt, "triggerAggs[]") {
-				which = "own trigger aggregate"
-				okVal = lookupIndexedBy(mu.Value, "window.triggerSpec", "placeholder")
+			v := mu.Value
+			if mi, isMI := v.(*ssa.MakeInterface); isMI {
+				v = mi.X
+			}
+			okVal, which := own(v, 0)
+			for _, k := range strings.Split(which, "+") {
+				seenKinds[k] = true
 			}
 			a.Check(okKey && okVal, fmt.Sprintf("%s#binds-%s", fname(fn), strings.ReplaceAll(which, " ", "-")), in.Pos(), "env[spec.placeholder] = Result() of the spec's "+which,
-				"the predicate environment binds "+kt.String()+" to "+vt+": a placeholder would read another spec's aggregate")
+				"the predicate environment binds "+kt.String()+" to "+TermOf(mu.Value, nil).String()+": a placeholder would read another spec's aggregate")
 		})
-		if n < 2 {
-			a.Und(fname(fn)+"#binds", fn.Pos(), "expected two bindings (reused output alias / own trigger aggregate), found %d", n)
-		}
+		a.Check(seenKinds["output alias"] && seenKinds["own trigger aggregate"], fname(fn)+"#binds-both-kinds", fn.Pos(),
+			"both kinds of trigger aggregate (reused SELECT output, trigger-only) are bound", fmt.Sprintf("bindings found: %d, kinds %v — a kind of trigger aggregate is never bound", n, seenKinds))
+		// the environment is fresh per evaluation: a placeholder that is not written this time (NULL
+		// aggregate) must not keep the value of an earlier row or of another group
+		cond := a.FieldOf(a.Named("window", "GlobalWindow"), "triggerCond")
+		allInstrs(fn, func(in ssa.Instruction) {
+			c, ok := in.(*ssa.Call)
+			if !ok || !c.Call.IsInvoke() || c.Call.Method.Name() != "Evaluate" {
+				return
+			}
+			if t := TermOf(c.Call.Value, nil); t.Kind != "field" || t.Field != cond {
+				return
+			}
+			arg := c.Call.Args[0]
+			if mi, isMI := arg.(*ssa.MakeInterface); isMI {
+				arg = mi.X
+			}
+			fresh := true
+			for _, l := range phiLeaves(arg) {
+				if _, isMake := l.(*ssa.MakeMap); !isMake {
+					fresh = false
+				}
+			}
+			a.Check(fresh, fname(fn)+"#fresh-environment", c.Pos(), "the predicate is evaluated on a map made for this evaluation",
+				"the predicate is evaluated on "+TermOf(arg, nil).String()+", a map that outlives the evaluation: a placeholder not written this time (NULL aggregate) keeps the value of an earlier row or of another group, and the group fires on a false predicate")
+		})
 	})
 	a.Rule("shape/unique-placeholders", 1, func() {
 		// per-spec state (gs.triggerAggs[spec.placeholder]) is keyed by the placeholder: it must be unique per
